@@ -721,7 +721,10 @@ fn ip_ids(c: &mut Ctx, rng: &mut impl Rng, ids: &[Ident], nflip: u64) {
             c.t.ev(json!({"ev":"IpVerify","v":4,"rec":rj,"res":res_json(&res),"how":how}));
         }
         // IPv6 flavour: genuine + one flip of each field
-        let ip6 = std::net::Ipv6Addr::from(rng.r#gen::<u128>());
+        // every other identity is bound to an IPv4-mapped address: its IPv4-compatible twin and the plain IPv4 address are
+        // DIFFERENT addresses, a record moved to them must not verify
+        let v4 = std::net::Ipv4Addr::from(rng.r#gen::<u32>() | 0x0100_0001);
+        let ip6 = if i % 2 == 0 { v4.to_ipv6_mapped() } else { std::net::Ipv6Addr::from(rng.r#gen::<u128>()) };
         let Ok(Ok(g6)) = common::catch(std::panic::AssertUnwindSafe(|| IPv6NodeID::generate(ip6, &sk, &id.pk))) else { continue };
         let rec6 = |c: &mut Ctx, r: &IPv6NodeID| -> Value {
             json!({"nid": c.it.tok(K_MISC, &r.node_id), "ip": c.it.tok(K_MISC, &r.ipv6_addr.octets()), "pk": c.it.tok(K_PK, &r.public_key),
@@ -739,6 +742,18 @@ fn ip_ids(c: &mut Ctx, rng: &mut impl Rng, ids: &[Ident], nflip: u64) {
         let mut m = g6.clone();
         m.salt.push(0);
         cases6.push((m, "salt:extended"));
+        if let Some(v4b) = g6.ipv6_addr.to_ipv4_mapped() {
+            let o = v4b.octets();
+            let mut m = g6.clone();
+            m.ipv6_addr = std::net::Ipv6Addr::new(0, 0, 0, 0, 0, 0, u16::from_be_bytes([o[0], o[1]]), u16::from_be_bytes([o[2], o[3]]));
+            cases6.push((m, "ip:mapped->compatible"));
+            // the same fields re-wrapped as an IPv4 node id
+            let r4 = IPv4NodeID { node_id: g6.node_id.clone(), ipv4_addr: v4b, public_key: g6.public_key.clone(), signature: g6.signature.clone(),
+                                  timestamp_secs: g6.timestamp_secs, salt: g6.salt.clone() };
+            let res = common::catch(std::panic::AssertUnwindSafe(|| r4.verify().map_err(|e| e.to_string())));
+            let rj = rec(c, &r4);
+            c.t.ev(json!({"ev":"IpVerify","v":4,"rec":rj,"res":res_json(&res),"how":"ip:mapped-v6-record-as-v4"}));
+        }
         for (r, how) in cases6 {
             let res = common::catch(std::panic::AssertUnwindSafe(|| r.verify().map_err(|e| e.to_string())));
             let rj = rec6(c, &r);
